@@ -526,6 +526,29 @@ def rule_mirror(fx, rep):
     rep.obligation(good)
     if not good:
         bad("from_white_eval", f"from_white_eval negates for {res}; expected only for Black", fw)
+    # the top-level evaluation returns the blend of the *same* terms on every path: a return that leaves terms out (a lazy-evaluation
+    # shortcut) is taken under a condition on the White-relative score, which the colour mirror negates - unless the test is written
+    # symmetrically, which this rule does not try to recognise, the position and its twin are scored by different term sets (seed
+    # C16-7a: `if lazy_eval > MARGIN { return lazy_eval }`)
+    tops = [b0 for b0 in fx.fn_bodies() if norm(b0.name).startswith("engine::eval::absolute_eval_with_trace") and b0.kind == "Fn"]
+    if len(tops) == 1:
+        tb = tops[0]
+        tpaths = [p0 for p0 in decision_paths(tb, 200) if p0[1] is not None]
+        if tpaths and len(tpaths) < 200:
+            def terms_of(e0):
+                return {c0[1].split("::")[-2] + "::" + c0[1].split("::")[-1] for c0 in walk(e0) if isinstance(c0, tuple) and c0 and c0[0] == "call" and isinstance(c0[1], str) and
+                        norm(c0[1]).startswith("engine::eval::") and c0[1].split("::")[-1] in ("eval", "eval_by_player") and "absolute_eval" not in c0[1]}
+            allt = set()
+            for cnd0, ret0, _l0 in tpaths:
+                allt |= terms_of(ret0)
+            n += 1
+            short = [(sorted(allt - terms_of(ret0)), cnd0) for cnd0, ret0, _l0 in tpaths if allt - terms_of(ret0)]
+            good = not short
+            rep.obligation(good)
+            rep.sample({"rule": "C16-MIRROR", "top_level_terms": sorted(allt), "return_paths": len(tpaths)})
+            if not good:
+                cshow = show(short[0][1][-1][0])[:80] if short[0][1] else "?"
+                bad("top/terms", f"`{tb.name}` has a return that leaves out {short[0][0]} (taken under `{cshow}`): a position and its colour-mirrored twin can be scored from different sets of terms", tb)
     # order independence: a term is a sum over the pieces of a set, and the set is scanned a1 -> h8 - an order the colour
     # mirror does not preserve (it reverses the ranks). A branch inside such a loop that depends on a variable carried from
     # one iteration to the next ("a passer was already counted on this file") makes the term depend on the scan order, hence
@@ -1011,6 +1034,8 @@ PH = "src/engine/eval/phased_eval.rs"
 PS = "src/engine/eval/piece_square_tables.rs"
 PA = "src/engine/eval/params.rs"
 MUTANTS = [
+    {"name": "lazy evaluation when White is far ahead (seed C16-7a)", "expect": "C16-MIRROR/top/terms",
+     "edits": [("src/engine/eval/mod.rs", "    let eval = game.incremental_eval.piece_square_tables\n        + material::eval::<TRACE>(game, trace)\n", "    let material_eval = game.incremental_eval.piece_square_tables + material::eval::<TRACE>(game, trace);\n    if !TRACE {\n        let lazy_eval = material_eval.for_phase(game.incremental_eval.phase_value);\n        if lazy_eval > WhiteEval(1800) {\n            return lazy_eval;\n        }\n    }\n    let eval = material_eval\n")]},
     {"name": "passed-pawn bonus once per file, first pawn in scan order (seed C16-5a)", "expect": "C16-MIRROR/order",
      "edits": [("src/engine/eval/pawn_structure.rs", "    for pawn in our_pawns {\n        if is_passed(pawn, player, their_pawns) {\n            bonus += pst_value(player, pawn);",
                 "    let mut files_with_passer = Bitboard::EMPTY;\n\n    for pawn in our_pawns {\n        let file = pawn.file().bitboard();\n        if (files_with_passer & file).any() {\n            continue;\n        }\n        if is_passed(pawn, player, their_pawns) {\n            files_with_passer |= file;\n            bonus += pst_value(player, pawn);")]},
